@@ -270,6 +270,24 @@ theorem C05_varlong_read (v : BitVec 64) (rest : Bytes) (s : Stream) (hs : s.fla
   rw [h]
   simp
 
+/-- two encodings written one after the other (a length prefix written by the writer, then the value: what a
+re-entrant writer produces when the encoders share no state) read back as the two values, in order, the rest untouched -/
+theorem C05_varint_read_two (a b : BitVec 32) (rest : Bytes) (s : Stream)
+    (hs : s.flat = leb a.toNat ++ (leb b.toNat ++ rest)) :
+    ∃ s' s'', varIntRead s = (Res.ok (a, (leb a.toNat).length), s') ∧
+      varIntRead s' = (Res.ok (b, (leb b.toNat).length), s'') ∧ s''.flat = rest := by
+  obtain ⟨s', h1, hf1, _⟩ := C05_varint_read a (leb b.toNat ++ rest) s hs
+  obtain ⟨s'', h2, hf2, _⟩ := C05_varint_read b rest s' hf1
+  exact ⟨s', s'', h1, h2, hf2⟩
+
+theorem C05_varlong_read_two (a b : BitVec 64) (rest : Bytes) (s : Stream)
+    (hs : s.flat = leb a.toNat ++ (leb b.toNat ++ rest)) :
+    ∃ s' s'', varLongRead s = (Res.ok (a, (leb a.toNat).length), s') ∧
+      varLongRead s' = (Res.ok (b, (leb b.toNat).length), s'') ∧ s''.flat = rest := by
+  obtain ⟨s', h1, hf1, _⟩ := C05_varlong_read a (leb b.toNat ++ rest) s hs
+  obtain ⟨s'', h2, hf2, _⟩ := C05_varlong_read b rest s' hf1
+  exact ⟨s', s'', h1, h2, hf2⟩
+
 /-- the read loop never consumes more than `fuel` bytes, whatever the input -/
 theorem varLoop_consumes (w fuel num : Nat) (V : BitVec w) (s : Stream) :
     ∃ k, k ≤ fuel ∧ (varLoop w fuel num V s).2.flat = s.flat.drop k := by
